@@ -4,7 +4,7 @@ import json
 from .. import core, explore, stages
 
 LEVEL = "proof"
-CLAIM = 'Theorems: soundness of the certificate checkers (language_preserved, trim, reduced, minimal_size): any (raw, minimised) pair that passes bisimCheck/accessCheck/coaccessCheck/distinctCheck has equal languages and the minimised automaton is trim, reduced and of minimal size among all automata of that language. On every run the real DFA::minimize output for the main automaton and every within-word automaton of every explored grammar is certified this way (certificates found by search, checked by the verified checkers), so each explored automaton is decided exactly.'
+CLAIM = 'Theorems: soundness of the certificate checkers (language_preserved, trim, reduced, minimal_size): any (raw, minimised) pair that passes bisimCheck/accessCheck/coaccessCheck/distinctCheck has equal languages and the minimised automaton is trim, reduced and of minimal size among all automata of that language. On every run the real DFA::minimize output for the main automaton and every within-word automaton of every explored grammar is certified this way (certificates found by search, checked by the verified checkers), so each explored automaton is decided exactly. Also proved over the model of do_minimize itself (Model/Min.lean: Hopcroft refinement with the dead state 0 for every iteration order of its hash containers, quotient, the two clean-up passes, renumbering): hopcroft_preserves_language (every well-formed input automaton), built_automaton_wf (what the subset construction builds is well-formed) and hence minimize_built_automaton — minimising the automaton the compiler builds preserves its language for all schedules of both loops; hopcroft_partition_stable (the final partition is a congruence that never mixes accepting and non-accepting states). Minimality over the model is not proved; it is decided per automaton by the certificates.'
 NOTE = 'The theorem about the model of do_minimize for every partition-refinement order (hopcroft_correct) is open; until it closes, the all-inputs claim rests on per-automaton certification (complete per automaton, not a proof over all automata). Trusted: vh dump, search code is untrusted (only its certificates are checked).'
 TECHNIQUE = 'Lean 4 verified certificate checkers (bisimulation, access/co-access, pairwise distinguishing words) applied to every automaton the real minimiser outputs'
 DESIGN_REF = '§3 C03'
